@@ -35,6 +35,8 @@ type Result struct {
 	ExitSites int  `json:"exit_sites"`
 	Flagged   int  `json:"flagged_sites"`
 	UsesSync  bool `json:"uses_sync"`
+	// UsesAtomic: some library file imports sync/atomic (rewritten to the zatomic shim: every atomic operation is a yield).
+	UsesAtomic bool `json:"uses_atomic"`
 	// Unowned lists constructs the simulator cannot schedule (the library's own
 	// goroutines, channel operations, select): they force the degraded mode.
 	Unowned []string `json:"unowned,omitempty"`
@@ -95,7 +97,7 @@ func LibraryFiles(root string) ([]string, error) {
 			if skipDirs[info.Name()] || strings.HasPrefix(info.Name(), ".") || strings.HasPrefix(info.Name(), "_") {
 				return filepath.SkipDir
 			}
-			if rel == filepath.Join("internal", "zsimrt") || rel == filepath.Join("internal", "zsync") {
+			if rel == filepath.Join("internal", "zsimrt") || rel == filepath.Join("internal", "zsync") || rel == filepath.Join("internal", "zatomic") {
 				return filepath.SkipDir
 			}
 			if _, err := os.Stat(filepath.Join(p, "go.mod")); err == nil {
@@ -187,6 +189,17 @@ func Instrument(root string, plain bool) (*Result, error) {
 			path, _ := strconv.Unquote(im.Path.Value)
 			if unownedImports[path] {
 				res.Notes = append(res.Notes, fmt.Sprintf("%s: import %q", f, path))
+			}
+			if path == "sync/atomic" {
+				res.UsesAtomic = true
+				if !plain {
+					off := tf.Offset(im.Path.Pos())
+					repl := strconv.Quote(mod + "/internal/zatomic")
+					if im.Name == nil {
+						repl = "atomic " + repl
+					}
+					edits = append(edits, edit{off: off, del: len(im.Path.Value), text: repl})
+				}
 			}
 			if path == "sync" {
 				res.UsesSync = true
